@@ -149,7 +149,8 @@ CHECKS = {
              'dumped namespace tree is proved to answer with the first scope on Python\'s lookup path (own scope unless global / nonlocal, '
              'enclosing non-class scopes, module; get_binding_is_python_lookup, class_bodies_skipped), and lookup_after_renaming composes the '
              'two: the same lookup on the renamed tree, under the new spelling, finds the scope it found before, given that the reservation '
-             'scope covers the lookup path below the home (cover) and the assigner\'s no-clash guarantee. Ties: the assigner model is fed the '
+             'scope covers the lookup path below the home (cover) and the assigner\'s no-clash guarantee; cover itself follows from the parent '
+             'chains reservation_scope adds (cover_from_reservation_chains). Ties: the assigner model is fed the '
              'binding structures the real scope analysis produced and must choose exactly the names the real rename() chose; the resolver '
              'model and the real get_binding are asked for every Name of every program; cover is checked on the real structures. The remaining '
              'part — which names a namespace binds and which namespaces a binding reserves (mapper / bind_names) — is decided by an '
